@@ -14,7 +14,8 @@ open Ptk.Py
     everything that is "browsing" -/
 def Op.isNav : Op → Bool
   | .setCursor _ | .left | .right | .home | .endl | .histBack _ | .histFwd _ | .goTo _ | .endHist
-  | .autoUp _ _ | .autoDown _ _ | .setEhs _ | .validate _ | .asyncValidate => true
+  | .autoUp _ _ | .autoDown _ _ | .setEhs _ | .setVwt _ | .validate _ | .asyncValidate
+  | .vStart | .vFinish | .appExit | .goToFixed _ | .endHistFixed => true
   | _ => false
 
 /-- the up / down / page steps of the property text (prefix-filtered loops) -/
@@ -23,12 +24,12 @@ def Op.isStep : Op → Bool
   | _ => false
 
 def Op.isEdit : Op → Bool
-  | .insert _ | .delBefore _ | .setText _ => true
+  | .insert _ | .delBefore _ | .setText _ | .yankApply _ _ _ => true
   | _ => false
 
 /-- the only operations that may write to the history -/
 def Op.appends : Op → Bool
-  | .accept _ | .append => true
+  | .accept _ | .append | .resetAppend _ _ | .operateNext => true
   | _ => false
 
 /-- well-formedness: the working index addresses an entry and the cursor is inside its text -/
@@ -37,6 +38,7 @@ def WF (s : St) : Prop := s.idx < s.work.length ∧ s.cur ≤ s.text.length
 /-- arguments that satisfy the callee's own assertions (`Document(t, c)` needs `c ≤ len t`) -/
 def Op.ok : Op → Prop
   | .reset t c => c ≤ t.length
+  | .resetAppend t c => c ≤ t.length
   | _ => True
 
 /-! ## 1. Browsing never alters the stored history -/
@@ -61,8 +63,14 @@ theorem nav_frame (v : Validator) (s : St) (op : Op) (h : op.isNav = true) : Fra
     | none => exact Frame.refl s
     | some s' => exact autoDown_frame s s' c g hr
   · simp [Frame]
+  · simp [Frame]
   · exact validate_frame v s _
   · exact asyncValidate_frame v s
+  · exact vStart_frame v s
+  · exact vFinish_frame v s
+  · exact frame_of_valOnly (appExit_valOnly s)
+  · exact goToHistoryFixed_frame _ _
+  · exact endOfHistoryFixed_frame _
 
 /-- **nav_preserves_hist** — a navigation step changes neither what `History.get_strings()`
     returns nor what is stored, nor any working copy. -/
@@ -95,6 +103,14 @@ theorem setText_editFrame (s : St) (t : Text) : EditFrame s (setText s t) t := b
   · repeat' (first | (simp [EditFrame, textChanged]; done) | split)
   · repeat' (first | (simp [EditFrame, textChanged]; done) | split)
 
+/-- `yank_nth_arg`'s writing half: an optional `delete_before_cursor`, an `insert_text`, and the
+    state is saved -/
+theorem yankBase_cases (s : St) : yankBase s = s ∨ ∃ k, yankBase s = deleteBefore s k := by
+  simp only [yankBase]
+  split
+  · exact Or.inr ⟨_, rfl⟩
+  · exact Or.inl rfl
+
 theorem edit_frame (v : Validator) (s : St) (op : Op) (h : op.isEdit = true) :
     ∃ x, EditFrame s (step v s op).1 x := by
   cases op <;> simp [Op.isEdit] at h <;> simp only [step]
@@ -103,6 +119,22 @@ theorem edit_frame (v : Validator) (s : St) (op : Op) (h : op.isEdit = true) :
     · exact ⟨_, setDocument_editFrame _ _ _⟩
     · exact ⟨s.text, rfl, rfl, rfl, rfl, rfl, rfl, (set_getD_self _ _ _).symm⟩
   · exact ⟨_, setText_editFrame _ _⟩
+  · next p n w =>
+    have f1 : ∃ x, EditFrame s (yankBase s) x := by
+      rcases yankBase_cases s with e | ⟨k, e⟩ <;> rw [e]
+      · exact ⟨s.text, rfl, rfl, rfl, rfl, rfl, rfl, (set_getD_self _ _ _).symm⟩
+      · simp only [deleteBefore]; split
+        · exact ⟨_, setDocument_editFrame _ _ _⟩
+        · exact ⟨s.text, rfl, rfl, rfl, rfl, rfl, rfl, (set_getD_self _ _ _).symm⟩
+    obtain ⟨x, a1, a2, a3, a4, a5, a6, a7⟩ := f1
+    obtain ⟨b1, b2, b3, b4, b5, b6, b7⟩ := setDocument_editFrame (yankBase s)
+      ((yankBase s).text.take (yankBase s).cur ++ w ++ (yankBase s).text.drop (yankBase s).cur)
+      ((yankBase s).cur + w.length)
+    refine ⟨(yankBase s).text.take (yankBase s).cur ++ w ++ (yankBase s).text.drop (yankBase s).cur,
+      b1.trans a1, b2.trans a2, b3.trans a3, b4.trans a4, b5.trans a5, b6.trans a6, ?_⟩
+    show (insertText (yankBase s) w).work = _
+    simp only [insertText]
+    rw [b7, a7, a6, List.set_set]
 
 /-- **edits_kept (one step)** — an edit leaves the history and every other working copy alone
     and stays on the same entry. -/
@@ -185,8 +217,10 @@ theorem validate_cases (v : Validator) (s : St) (b : Bool) :
     (s.vstate ≠ .unknown ∧ validate v s b = (s, decide (s.vstate = .valid))) ∨
     (s.vstate = .unknown ∧ ∃ e, v s.text = some e ∧
       validate v s b =
-        ({ (if b then setCursorPos s (min (max 0 e) s.text.length) else s) with vstate := .invalid }, false)) ∨
-    (s.vstate = .unknown ∧ v s.text = none ∧ validate v s b = ({ s with vstate := .valid }, true)) := by
+        ({ (if b then setCursorPos s (min (max 0 e) s.text.length) else s) with
+            vstate := .invalid, verr := some e }, false)) ∨
+    (s.vstate = .unknown ∧ v s.text = none ∧
+      validate v s b = ({ s with vstate := .valid, verr := none }, true)) := by
   simp only [validate]
   by_cases h : s.vstate = .unknown
   · simp only [h, ne_eq, not_true_eq_false, if_false]
@@ -229,6 +263,24 @@ theorem validateAndHandle_storage (v : Validator) (s : St) (keep : Bool) :
     · simp [(reset_spec _ _ _).2.2.2.2.2.2.1, h2, hf.2.2.1]
     · simp [h2, hf.2.2.1]
 
+/-- `operate-and-get-next` is `validate_and_handle` with the session's accept handler, plus one
+    more registered callable -/
+theorem operateNext_eq (v : Validator) (s : St) :
+    (operateNext v s).1 = { (validateAndHandle v s true).1 with
+                              preRun := (validateAndHandle v s true).1.preRun ++ [s.idx] } ∧
+    (operateNext v s).2 = (validateAndHandle v s true).2 := by
+  simp [operateNext]
+
+theorem step_operateNext (v : Validator) (s : St) :
+    (step v s .operateNext).1 = { (validateAndHandle v s true).1 with
+                              preRun := (validateAndHandle v s true).1.preRun ++ [s.idx] } := by
+  simp only [step]
+  cases hr : operateNext v s with
+  | mk s' r =>
+    have := (operateNext_eq v s).1
+    rw [hr] at this
+    cases r <;> exact this
+
 /-- **history_append_only (one step)** — no operation removes or rewrites a stored entry; an
     operation that is not an accept / explicit append stores nothing; an accept stores at most
     the current text, once. -/
@@ -250,8 +302,12 @@ theorem step_storage (v : Validator) (s : St) (op : Op) :
   · obtain ⟨_, _, _, _, _, _, suf, h1, _, h2⟩ := appendToHistory_spec s
     exact ⟨suf, h1, h2, by simp [Op.appends]⟩
   · exact ⟨[], by simp, by simp [step, reset], by simp⟩
+  · obtain ⟨_, _, _, _, _, _, suf, h1, _, h2⟩ := appendToHistory_spec s
+    exact ⟨suf, h1, by simp [step, resetAppend, reset, h2], by simp [Op.appends]⟩
   · exact ⟨[], by simp, by simp [step, (startLoad_spec s).2.2.2.2.2.1], by simp⟩
   · exact ⟨[], by simp, by simp [step, (loadOne_spec s).2.2.2.2.2.1], by simp⟩
+  · obtain ⟨suf, h1, h2, _⟩ := validateAndHandle_storage v s true
+    exact ⟨suf, h1, by rw [step_operateNext]; exact h2, by simp [Op.appends]⟩
 
 /-- **history_append_only** — after any sequence of operations the stored history is the old
     one plus a suffix; if the sequence contains no accept / append, it is unchanged. -/
@@ -369,9 +425,12 @@ theorem validate_wf (v : Validator) (s : St) (b : Bool) (h : WF s) : WF (validat
       exact ⟨this.1, this.2⟩
   · exact ⟨h.1, h.2⟩
 
-theorem asyncValidate_wf (v : Validator) (s : St) (h : WF s) : WF (asyncValidate v s) := by
-  simp only [asyncValidate]
-  repeat' (first | exact h | exact ⟨h.1, h.2⟩ | split)
+theorem wf_of_valOnly (s t : St) (hv : ValOnly s t) (h : WF s) : WF t := by
+  obtain ⟨h1, h2, h3, _⟩ := hv.fields
+  exact ⟨by rw [h2, h1]; exact h.1, by rw [h3, hv.text]; exact h.2⟩
+
+theorem asyncValidate_wf (v : Validator) (s : St) (h : WF s) : WF (asyncValidate v s) :=
+  wf_of_valOnly s _ (asyncValidate_valOnly v s) h
 
 theorem appendToHistory_wf (s : St) (h : WF s) : WF (appendToHistory s) := by
   obtain ⟨h1, h2, h3, _⟩ := appendToHistory_spec s
@@ -434,6 +493,29 @@ theorem autoDown_wf (s s' : St) (c : Int) (g : Bool) (h : WF s) (hr : autoDown s
   · exact autoDownPos_wf s s' c g h hr
   · exact autoUpPos_wf s s' _ g h hr
 
+theorem insertText_wf (s : St) (d : Text) (h : WF s) : WF (insertText s d) :=
+  (setDocument_wf s _ _ h (by simp; have := h.2; omega)).1
+
+theorem deleteBefore_wf (s : St) (n : Nat) (h : WF s) : WF (deleteBefore s n) := by
+  simp only [deleteBefore]; split
+  · exact (setDocument_wf s _ _ h (by simp; have := h.2; omega)).1
+  · exact h
+
+theorem yankBase_wf (s : St) (h : WF s) : WF (yankBase s) := by
+  rcases yankBase_cases s with e | ⟨k, e⟩ <;> rw [e]
+  · exact h
+  · exact deleteBefore_wf s k h
+
+theorem yankApply_wf (s : St) (p n : Int) (w : Text) (h : WF s) : WF (yankApply s p n w) := by
+  have := insertText_wf (yankBase s) w (yankBase_wf s h)
+  exact ⟨this.1, this.2⟩
+
+theorem goToHistoryFixed_wf (s : St) (i : Nat) (h : WF s) : WF (goToHistoryFixed s i) := by
+  simp only [goToHistoryFixed]; split
+  · have := goToHistory_wf s i h
+    exact ⟨this.1, this.2⟩
+  · exact h
+
 /-- **wf_step** — every operation keeps the working index on an existing entry and the cursor
     inside the current text. -/
 theorem wf_step (v : Validator) (s : St) (op : Op) (h : WF s) (hok : op.ok) : WF (step v s op).1 := by
@@ -466,18 +548,29 @@ theorem wf_step (v : Validator) (s : St) (op : Op) (h : WF s) (hok : op.ok) : WF
     | none => exact h
     | some s' => exact autoDown_wf s s' c g h hr
   · exact ⟨h.1, h.2⟩
+  · exact ⟨h.1, h.2⟩
   · exact validate_wf v s _ h
   · exact asyncValidate_wf v s h
+  · exact wf_of_valOnly s _ (vStart_valOnly v s) h
+  · exact wf_of_valOnly s _ (vFinish_valOnly v s) h
   · next keep =>
     have := validateAndHandle_wf v s keep h
     cases hr : validateAndHandle v s keep with
     | mk s' r => cases r <;> simp [hr] at this ⊢ <;> exact this
   · exact appendToHistory_wf s h
   · exact reset_wf _ _ _ hok
+  · exact reset_wf _ _ _ hok
   · exact startLoad_wf s h
   · exact loadOne_wf s h
+  · exact wf_of_valOnly s _ (appExit_valOnly s) h
+  · rw [← step, step_operateNext]
+    have := validateAndHandle_wf v s true h
+    exact ⟨this.1, this.2⟩
+  · exact yankApply_wf s _ _ _ h
+  · exact goToHistoryFixed_wf _ _ h
+  · exact goToHistoryFixed_wf _ _ (historyForward_wf _ _ h)
 
-theorem fresh_wf (strs : List Text) (e w : Bool) : WF (St.fresh strs e w) := by
+theorem fresh_wf (strs : List Text) (e w : Bool) (a : Bool := false) : WF (St.fresh strs e w a) := by
   simp [WF, St.fresh, St.text]
 
 /-- **wf_run** — from a freshly constructed buffer every reachable state is well-formed. -/
@@ -687,9 +780,9 @@ theorem back_forth (s : St) (k : Int) (h : WF s) (hk : 1 ≤ k) (hav : k ≤ (av
     (historyForward (historyBackward s k) k).text = s.text ∧
     (historyBackward s k).idx < s.idx := by
   obtain ⟨j, hj, hlt, hmj, hcnt⟩ := bwdScan_kth (historyMatches (setHistorySearch s)) s.idx k none hk hav
-  have hb : historyBackward s k =
-      setCursorPos (navTo (setHistorySearch s) j) (navTo (setHistorySearch s) j).text.length := by
-    rw [historyBackward_eq, hj]
+  obtain ⟨n, hb⟩ : ∃ n, historyBackward s k =
+      setCursorPos (navTo (setHistorySearch s) j n) (navTo (setHistorySearch s) j n).text.length :=
+    ⟨_, by rw [historyBackward_eq, hj]⟩
   have hst := setHistorySearch_stable s
   have hfix : setHistorySearch (historyBackward s k) = historyBackward s k := by
     apply setHistorySearch_fixed
@@ -838,6 +931,49 @@ def Op.isJump : Op → Bool
   | .goTo _ | .endHist => true
   | _ => false
 
+theorem validateAndHandle_searchInv (v : Validator) (s : St) (keep : Bool) (h : SearchInv s) :
+    SearchInv (validateAndHandle v s keep).1 := by
+  obtain ⟨_, h2, h3⟩ := validate_idx_text v s true
+  simp only [validateAndHandle]
+  split
+  · split
+    · obtain ⟨a1, a2, _, _, _, a6, _⟩ := appendToHistory_spec (validate v s true).1
+      refine searchInv_of_same s _ (a6.trans h3) ?_ h
+      simp only [St.text] at h2 ⊢; rw [a1, a2]; exact h2
+    · exact searchInv_none _ (reset_spec _ _ _).2.2.2.1
+  · exact searchInv_of_same s _ h3 h2 h
+
+theorem insertText_searchInv (s : St) (d : Text) (hwf : WF s) (h : SearchInv s) : SearchInv (insertText s d) := by
+  have hw := setDocument_wf s (s.text.take s.cur ++ d ++ s.text.drop s.cur) (s.cur + d.length) hwf
+    (by simp; have := hwf.2; omega)
+  rcases setDocument_search s (s.text.take s.cur ++ d ++ s.text.drop s.cur) (s.cur + d.length) with h1 | ⟨h1, h2⟩
+  · exact searchInv_none _ h1
+  · exact searchInv_of_same s _ h1 (by simp only [insertText]; rw [hw.2.1, h2]) h
+
+theorem deleteBefore_searchInv (s : St) (n : Nat) (hwf : WF s) (h : SearchInv s) : SearchInv (deleteBefore s n) := by
+  simp only [deleteBefore]; split
+  · have hw := setDocument_wf s (s.text.take (s.cur - min n s.cur) ++ s.text.drop s.cur) (s.cur - min n s.cur) hwf
+      (by simp; have := hwf.2; omega)
+    rcases setDocument_search s (s.text.take (s.cur - min n s.cur) ++ s.text.drop s.cur) (s.cur - min n s.cur)
+      with h1 | ⟨h1, h2⟩
+    · exact searchInv_none _ h1
+    · exact searchInv_of_same s _ h1 (by rw [hw.2.1, h2]) h
+  · exact h
+
+/-- the repaired jump restores the filter invariant by itself -/
+theorem goToHistoryFixed_searchInv (s : St) (i : Nat) (h : SearchInv s) : SearchInv (goToHistoryFixed s i) := by
+  simp only [goToHistoryFixed]; split
+  · exact searchInv_none _ rfl
+  · exact h
+
+theorem yankApply_searchInv (s : St) (p n : Int) (w : Text) (hwf : WF s) (h : SearchInv s) :
+    SearchInv (yankApply s p n w) := by
+  have hb : SearchInv (yankBase s) := by
+    rcases yankBase_cases s with e | ⟨k, e⟩ <;> rw [e]
+    · exact h
+    · exact deleteBefore_searchInv s k hwf h
+  exact searchInv_of_same _ _ rfl rfl (insertText_searchInv _ w (yankBase_wf s hwf) hb)
+
 /-- **filter_invariant** — up / down / page steps, edits, cursor moves, loader steps, validation,
     accept and reset all keep "the current entry starts with the remembered search text". -/
 theorem searchInv_step (v : Validator) (s : St) (op : Op) (hwf : WF s) (h : SearchInv s)
@@ -886,12 +1022,15 @@ theorem searchInv_step (v : Validator) (s : St) (op : Op) (hwf : WF s) (h : Sear
       · exact autoDownPos_searchInv s s' c g h hr
       · exact autoUpPos_searchInv s s' _ g h hr
   · exact searchInv_of_same s _ rfl rfl h
+  · exact searchInv_of_same s _ rfl rfl h
   · obtain ⟨_, h2, h3⟩ := validate_idx_text v s ‹Bool›
     exact searchInv_of_same s _ h3 h2 h
-  · have hf := asyncValidate_frame v s
-    refine searchInv_of_same s _ ?_ ?_ h
-    · simp only [asyncValidate]; repeat' (first | rfl | split)
-    · simp only [asyncValidate]; repeat' (first | rfl | split)
+  · have hv := asyncValidate_valOnly v s
+    exact searchInv_of_same s _ hv.fields.2.2.2.1 hv.text h
+  · have hv := vStart_valOnly v s
+    exact searchInv_of_same s _ hv.fields.2.2.2.1 hv.text h
+  · have hv := vFinish_valOnly v s
+    exact searchInv_of_same s _ hv.fields.2.2.2.1 hv.text h
   · next keep =>
     have key : SearchInv (validateAndHandle v s keep).1 := by
       obtain ⟨_, h2, h3⟩ := validate_idx_text v s true
@@ -908,10 +1047,17 @@ theorem searchInv_step (v : Validator) (s : St) (op : Op) (hwf : WF s) (h : Sear
   · obtain ⟨a1, a2, _, _, _, a6, _⟩ := appendToHistory_spec s
     exact searchInv_of_same s _ a6 (by simp only [St.text]; rw [a1, a2]) h
   · exact searchInv_none _ (reset_spec _ _ _).2.2.2.1
+  · exact searchInv_none _ (reset_spec _ _ _).2.2.2.1
   · obtain ⟨_, _, _, h4, _, _, h7⟩ := startLoad_spec s
     exact searchInv_of_same s _ h4 h7 h
   · obtain ⟨h1, _, h3, _⟩ := loadOne_spec s
     exact searchInv_of_same s _ h3 h1 h
+  · exact searchInv_of_same s _ rfl rfl h
+  · rw [← step, step_operateNext]
+    exact searchInv_of_same _ _ rfl rfl (validateAndHandle_searchInv v s true h)
+  · exact yankApply_searchInv s _ _ _ hwf h
+  · exact goToHistoryFixed_searchInv _ _ h
+  · exact goToHistoryFixed_searchInv _ _ (historyForward_inv s _ h)
 
 /-! ## 9. Validation: the cached verdict is always the validator's verdict on the current text -/
 
@@ -996,30 +1142,53 @@ theorem validate_vinv (v : Validator) (s : St) (b : Bool) (h : VInv v s) : VInv 
     · intro _; rw [ht]; exact he
     · intro h'; rw [hh] at h'; simp at h'
 
-theorem asyncValidate_cases (v : Validator) (s : St) :
-    asyncValidate v s = s ∨
-    (s.vstate ≠ .unknown ∧ asyncValidate v s = { s with vpending := false }) ∨
-    (s.vstate = .unknown ∧ v s.text = none ∧ asyncValidate v s = { s with vpending := false, vstate := .valid }) ∨
-    (s.vstate = .unknown ∧ (∃ e, v s.text = some e) ∧
-      asyncValidate v s = { s with vpending := false, vstate := .invalid }) := by
-  have e : ({ s with vpending := false } : St).text = s.text := rfl
-  by_cases hp : s.vpending = true
-  · by_cases hu : s.vstate = .unknown
-    · cases hv : v s.text with
-      | none => right; right; left; refine ⟨hu, rfl, ?_⟩; simp only [asyncValidate, hp, if_true]; rw [e, hv]; simp [hu]
-      | some x =>
-        right; right; right; refine ⟨hu, ⟨x, rfl⟩, ?_⟩
-        simp only [asyncValidate, hp, if_true]; rw [e, hv]; simp [hu]
-    · right; left; refine ⟨hu, ?_⟩; simp [asyncValidate, hp, hu]
-  · left; simp [asyncValidate, hp]
+/-- storing the validator's verdict *for the current text* is what makes a cached state genuine -/
+theorem setVerdict_vinv (v : Validator) (s : St) : VInv v (setVerdict s (v s.text)) := by
+  cases hv : v s.text with
+  | none => exact ⟨fun _ => hv, fun h' => by simp [setVerdict] at h'⟩
+  | some e => exact ⟨fun h' => by simp [setVerdict] at h', fun _ => ⟨e, hv⟩⟩
 
-theorem asyncValidate_vinv (v : Validator) (s : St) (h : VInv v s) : VInv v (asyncValidate v s) := by
-  rcases asyncValidate_cases v s with hh | ⟨_, hh⟩ | ⟨_, hv, hh⟩ | ⟨_, hv, hh⟩ <;> rw [hh]
+theorem vinv_vrun (v : Validator) (s : St) (r : Option (Text × Nat)) (h : VInv v s) :
+    VInv v { s with vrun := r } := ⟨h.1, h.2⟩
+
+theorem vLoopTop_vinv (v : Validator) (s : St) (h : VInv v s) : VInv v (vLoopTop v s) := by
+  simp only [vLoopTop]
+  split
+  · exact vinv_vrun v s _ h
+  · split
+    · exact vinv_vrun v s _ h
+    · exact vinv_vrun v _ _ (setVerdict_vinv v s)
+
+theorem vStart_vinv (v : Validator) (s : St) (h : VInv v s) : VInv v (vStart v s) := by
+  simp only [vStart]
+  split
   · exact h
-  · exact ⟨h.1, h.2⟩
-  · exact ⟨fun _ => hv, fun h' => by simp at h'⟩
-  · exact ⟨fun h' => by simp at h', fun _ => hv⟩
+  · split
+    · exact ⟨h.1, h.2⟩
+    · exact vLoopTop_vinv v _ ⟨h.1, h.2⟩
 
+/-- **the stale-verdict guard** — when the validation in flight finishes, its verdict is stored
+    only if text and cursor are still the captured ones; otherwise the loop starts over. -/
+theorem vFinish_vinv (v : Validator) (s : St) (h : VInv v s) : VInv v (vFinish v s) := by
+  simp only [vFinish]
+  split
+  · exact h
+  · next t c hr =>
+    split
+    · next heq =>
+      have := vinv_vrun v _ none (setVerdict_vinv v s)
+      rw [heq.1] at this
+      exact this
+    · exact vLoopTop_vinv v s h
+
+theorem drainGo_vinv (v : Validator) : ∀ (n : Nat) (s : St), VInv v s → VInv v (drainGo v n s) := by
+  intro n
+  induction n with
+  | zero => intro s h; exact h
+  | succ n ih => intro s h; exact ih _ (vStart_vinv v s h)
+
+theorem asyncValidate_vinv (v : Validator) (s : St) (h : VInv v s) : VInv v (asyncValidate v s) :=
+  drainGo_vinv v _ s h
 theorem autoUpPos_vinv (v : Validator) (s s' : St) (c : Int) (g : Bool) (h : VInv v s)
     (hr : autoUpPos s c g = some s') : VInv v s' := by
   simp only [autoUpPos] at hr
@@ -1051,6 +1220,39 @@ theorem autoDownPos_vinv (v : Validator) (s s' : St) (c : Int) (g : Bool) (h : V
     · exact vinv_either v s _ (vinv_trans_step v s _ _ (historyForward_vstate s c)
         (Or.inr ⟨by simp [home], by simp [home]⟩)) h
     · exact vinv_either v s _ (historyForward_vstate s c) h
+
+theorem validateAndHandle_vinv (v : Validator) (s : St) (keep : Bool) (h : VInv v s) :
+    VInv v (validateAndHandle v s keep).1 := by
+  have hv := validate_vinv v s true h
+  simp only [validateAndHandle]
+  split
+  · split
+    · obtain ⟨a1, a2, _, a4, _⟩ := appendToHistory_spec (validate v s true).1
+      exact vinv_same v _ _ a4 (by simp only [St.text]; rw [a1, a2]) hv
+    · exact vinv_unknown v _ (reset_spec _ _ _).2.2.2.2.1
+  · exact hv
+
+theorem goToHistoryFixed_vstate (s : St) (i : Nat) :
+    (goToHistoryFixed s i).vstate = .unknown ∨
+    ((goToHistoryFixed s i).vstate = s.vstate ∧ (goToHistoryFixed s i).text = s.text) := by
+  simp only [goToHistoryFixed]; split
+  · rcases goToHistory_vstate s i with h | ⟨h1, h2⟩
+    · exact Or.inl h
+    · exact Or.inr ⟨h1, h2⟩
+  · exact Or.inr ⟨rfl, rfl⟩
+
+theorem yankApply_vinv (v : Validator) (s : St) (p n : Int) (w : Text) (hwf : WF s) (h : VInv v s) :
+    VInv v (yankApply s p n w) := by
+  have hb : VInv v (yankBase s) := by
+    rcases yankBase_cases s with e | ⟨k, e⟩ <;> rw [e]
+    · exact h
+    · simp only [deleteBefore]; split
+      · exact vinv_either v s _ (setDocument_vstate s _ _ hwf (by simp; have := hwf.2; omega)) h
+      · exact h
+  have hwb := yankBase_wf s hwf
+  have := vinv_either v (yankBase s) (insertText (yankBase s) w)
+    (setDocument_vstate _ _ _ hwb (by simp; have := hwb.2; omega)) hb
+  exact vinv_same v _ _ rfl rfl this
 
 /-- **verdict_is_fresh** — every operation keeps "a VALID / INVALID state is the verdict of the
     validator on the *current* text" (any text or entry change resets it to UNKNOWN). -/
@@ -1088,8 +1290,11 @@ theorem vinv_step (v : Validator) (s : St) (op : Op) (hwf : WF s) (h : VInv v s)
       · exact autoDownPos_vinv v s s' c g h hr
       · exact autoUpPos_vinv v s s' _ g h hr
   · exact vinv_same v s _ rfl rfl h
+  · exact vinv_same v s _ rfl rfl h
   · exact validate_vinv v s _ h
   · exact asyncValidate_vinv v s h
+  · exact vStart_vinv v s h
+  · exact vFinish_vinv v s h
   · next keep =>
     have key : VInv v (validateAndHandle v s keep).1 := by
       have hv := validate_vinv v s true h
@@ -1105,10 +1310,17 @@ theorem vinv_step (v : Validator) (s : St) (op : Op) (hwf : WF s) (h : VInv v s)
   · obtain ⟨a1, a2, _, a4, _⟩ := appendToHistory_spec s
     exact vinv_same v _ _ a4 (by simp only [St.text]; rw [a1, a2]) h
   · exact vinv_unknown v _ (reset_spec _ _ _).2.2.2.2.1
+  · exact vinv_unknown v _ (reset_spec _ _ _).2.2.2.2.1
   · obtain ⟨_, _, _, _, h5, _, h7⟩ := startLoad_spec s
     exact vinv_same v s _ h5 h7 h
   · obtain ⟨h1, _, _, h4, _⟩ := loadOne_spec s
     exact vinv_same v s _ h4 h1 h
+  · exact vinv_same v s _ rfl rfl h
+  · rw [← step, step_operateNext]
+    exact vinv_same v _ _ rfl rfl (validateAndHandle_vinv v s true h)
+  · exact yankApply_vinv v s _ _ _ hwf h
+  · exact vinv_either v s _ (goToHistoryFixed_vstate s _) h
+  · exact vinv_either v s _ (vinv_trans_step v s _ _ (historyForward_vstate s _) (goToHistoryFixed_vstate _ _)) h
 
 /-! ## 10. Reject: nothing changes but the cursor of a fresh verdict -/
 
@@ -1124,12 +1336,13 @@ theorem reject_no_change (v : Validator) (s : St) (keep : Bool) (e : Int)
     (validateAndHandle v s keep).1.hist = s.hist ∧ (validateAndHandle v s keep).1.storage = s.storage ∧
     (validateAndHandle v s keep).1.search = s.search ∧
     (validateAndHandle v s keep).1.vstate = .invalid ∧
-    (validateAndHandle v s keep).1.cur = min (max 0 e).toNat s.text.length := by
+    (validateAndHandle v s keep).1.cur = min (max 0 e).toNat s.text.length ∧
+    (validateAndHandle v s keep).1.verr = some e := by
   have hval : validate v s true =
-      ({ setCursorPos s (min (max 0 e) s.text.length) with vstate := .invalid }, false) := by
+      ({ setCursorPos s (min (max 0 e) s.text.length) with vstate := .invalid, verr := some e }, false) := by
     simp [validate, hu, hv]
   simp only [validateAndHandle, hval]
-  refine ⟨rfl, by simp, by simp, by simp [St.text], by simp, by simp, by simp, rfl, ?_⟩
+  refine ⟨rfl, by simp, by simp, by simp [St.text], by simp, by simp, by simp, rfl, ?_, rfl⟩
   simp only [Bool.false_eq_true, if_false]
   rw [setCursorPos_cur]
   omega
@@ -1234,6 +1447,23 @@ theorem reject_appends_nothing (v : Validator) (s : St) (keep : Bool)
 
 /-! ## 12. `get_strings()` versus what is stored -/
 
+theorem validateAndHandle_hist (v : Validator) (s : St) (keep : Bool) :
+    ∃ suf, (validateAndHandle v s keep).1.hist = s.hist ++ suf ∧
+      (validateAndHandle v s keep).1.storage = s.storage ++ suf ∧
+      (validateAndHandle v s keep).1.hloaded = s.hloaded := by
+  have hf := validate_frame v s true
+  simp only [validateAndHandle]
+  by_cases hb : (validate v s true).2 = true
+  · obtain ⟨a1, a2⟩ := appendToHistory_hist (validate v s true).1
+    have a5 := (appendToHistory_spec (validate v s true).1).2.2.2.2.1
+    rw [hf.2.1] at a1
+    rw [hf.2.1, hf.2.2.1] at a2
+    refine ⟨appended s.hist (validate v s true).1.text, ?_, ?_, ?_⟩ <;> simp only [hb, if_true]
+    · cases keep <;> simp [reset, a1]
+    · cases keep <;> simp [reset, a2]
+    · cases keep <;> simp [reset, a5, hf.2.2.2.1]
+  · exact ⟨[], by simp [hb, hf.2.1], by simp [hb, hf.2.2.1], by simp [hb, hf.2.2.2.1]⟩
+
 /-- how one operation moves (get_strings, storage, loaded flag) -/
 theorem step_hist_cases (v : Validator) (s : St) (op : Op) :
     (∃ suf, (step v s op).1.hist = s.hist ++ suf ∧ (step v s op).1.storage = s.storage ++ suf ∧
@@ -1272,6 +1502,10 @@ theorem step_hist_cases (v : Validator) (s : St) (op : Op) :
     obtain ⟨a1, a2⟩ := appendToHistory_hist s
     exact ⟨_, a1, a2, (appendToHistory_spec s).2.2.2.2.1⟩
   · left; exact ⟨[], by simp [step, reset], by simp [step, reset], by simp [step, reset]⟩
+  · left
+    obtain ⟨a1, a2⟩ := appendToHistory_hist s
+    exact ⟨appended s.hist s.text, by simp [step, resetAppend, reset, a1], by simp [step, resetAppend, reset, a2],
+      by simp [step, resetAppend, reset, (appendToHistory_spec s).2.2.2.2.1]⟩
   · simp only [step, startLoad]
     by_cases hl : s.loading = true
     · left; exact ⟨[], by simp [hl], by simp [hl], by simp [hl]⟩
@@ -1279,6 +1513,10 @@ theorem step_hist_cases (v : Validator) (s : St) (op : Op) :
   · left
     simp only [step, loadOne]
     cases s.pending <;> exact ⟨[], by simp, by simp, by simp⟩
+  · left
+    obtain ⟨suf, k1, k2, k3⟩ := validateAndHandle_hist v s true
+    exact ⟨suf, by rw [step_operateNext]; exact k1, by rw [step_operateNext]; exact k2,
+      by rw [step_operateNext]; exact k3⟩
 
 /-- once loaded, `get_strings()` is exactly what is stored (before the first load it is only
     what has been appended since the history object was created) -/
@@ -1299,7 +1537,7 @@ theorem loaded_step (v : Validator) (s : St) (op : Op) (h : Loaded s) : Loaded (
   · exact ⟨h3.trans h.1, by rw [h1, h2, h.2]⟩
   · exact ⟨h3, by rw [h1, h2]; simp [h.1, h.2]⟩
 
-theorem fresh_hinv (strs : List Text) (e w : Bool) : HInv (St.fresh strs e w) := by
+theorem fresh_hinv (strs : List Text) (e w : Bool) (a : Bool := false) : HInv (St.fresh strs e w a) := by
   intro h; simp [St.fresh] at h
 
 /-! ## 13. The next prompt starts from a clean entry list -/
@@ -1329,6 +1567,25 @@ theorem reset_clean (v : Validator) (s : St) (t : Text) (c : Nat) (h : HInv s) :
   rw [e2, e1]
   simp [loadAll, reset, St.text, List.getD]
 
+/-- **operate_and_get_next_never_fetches** — the callables `operate-and-get-next` registers run in
+    `Application._pre_run`, i.e. right after `default_buffer.reset()` and before the history loader
+    has delivered anything: the only working line is the new one, `new_index = index + 1 ≥ 1` is
+    never `< 1`, so none of them moves the index; they are just dropped. -/
+theorem runPreRun_reset (s : St) (t : Text) (c : Nat) :
+    runPreRun (reset s t c) = { reset s t c with preRun := [] } := by
+  have key : ∀ (l : List Nat) (u : St), u.work.length = 1 →
+      l.foldl (fun t i => if i + 1 < t.work.length then setWorkingIndex t (i + 1) else t) u = u := by
+    intro l
+    induction l with
+    | nil => intro u _; rfl
+    | cons i l ih =>
+      intro u hu
+      simp only [List.foldl_cons, hu]
+      rw [if_neg (by omega)]
+      exact ih u hu
+  simp only [runPreRun]
+  rw [key _ _ (by simp [reset])]
+
 /-- the same for the `PromptSession.prompt(default=d)` glue -/
 theorem next_prompt_clean (s : St) (d : Text) (h : HInv s) :
     (promptStart s d).work = s.storage ++ [d] ∧ (promptStart s d).idx = s.storage.length ∧
@@ -1340,13 +1597,14 @@ theorem next_prompt_clean (s : St) (d : Text) (h : HInv s) :
     · simp [hl, h hl]
     · simp [hl]
   have e : promptStart s d =
-      { reset s d d.length with vpending := false, hloaded := true, hist := s.storage, loading := true,
-                                pending := [], work := s.storage ++ [d], idx := s.storage.length } := by
-    simp only [promptStart, startLoad]
-    simp [reset, loadAll]
+      { reset (appExit s) d d.length with
+        preRun := [], hloaded := true, hist := s.storage, loading := true,
+        pending := [], work := s.storage ++ [d], idx := s.storage.length } := by
+    simp only [promptStart, runPreRun_reset, startLoad]
+    simp [reset, loadAll, appExit]
     exact ⟨hh, congrArg List.length hh⟩
   rw [e]
-  simp [reset, St.text, List.getD, Loaded, WF]
+  simp [reset, St.text, List.getD, Loaded, WF, appExit]
 
 /-! ## 14. Whole sessions -/
 
@@ -1356,8 +1614,9 @@ def Inv (v : Validator) (s : St) : Prop := WF s ∧ VInv v s ∧ HInv s
 theorem inv_step (v : Validator) (s : St) (op : Op) (h : Inv v s) (hok : op.ok) : Inv v (step v s op).1 :=
   ⟨wf_step v s op h.1 hok, vinv_step v s op h.1 h.2.1, hinv_step v s op h.2.2⟩
 
-theorem inv_fresh (v : Validator) (strs : List Text) (e w : Bool) : Inv v (St.fresh strs e w) :=
-  ⟨fresh_wf strs e w, vinv_unknown v _ rfl, fresh_hinv strs e w⟩
+theorem inv_fresh (v : Validator) (strs : List Text) (e w : Bool) (a : Bool := false) :
+    Inv v (St.fresh strs e w a) :=
+  ⟨fresh_wf strs e w a, vinv_unknown v _ rfl, fresh_hinv strs e w a⟩
 
 /-- **inv_run** — well-formedness, genuineness of the cached verdict and `get_strings() = stored`
     (once loaded) hold after every finite sequence of operations on a fresh buffer. -/
@@ -1535,10 +1794,10 @@ theorem forth_back (s : St) (k : Int) (hk : 1 ≤ k) (hav : k ≤ (availFwd s : 
     s.idx < (historyForward s k).idx := by
   obtain ⟨d, hd, hlt, hmd, hcnt⟩ := fwdScan_kth' (historyMatches (setHistorySearch s))
     (s.work.length - (s.idx + 1)) (s.idx + 1) k none hk hav
-  have hf : historyForward s k =
-      (let s2 := setCursorPos (navTo (setHistorySearch s) (s.idx + 1 + d)) 0
-       setCursorPos s2 ((s2.cur : Int) + (lineAfter s2.text s2.cur).length)) := by
-    rw [historyForward_eq, hd]
+  obtain ⟨n, hf⟩ : ∃ n, historyForward s k =
+      (let s2 := setCursorPos (navTo (setHistorySearch s) (s.idx + 1 + d) n) 0
+       setCursorPos s2 ((s2.cur : Int) + (lineAfter s2.text s2.cur).length)) :=
+    ⟨_, by rw [historyForward_eq, hd]⟩
   have hst := setHistorySearch_stable s
   have hfix : setHistorySearch (historyForward s k) = historyForward s k := by
     apply setHistorySearch_fixed
@@ -1561,61 +1820,141 @@ example : let s := run exV exS [.histBack 2]
     s.idx = 0 ∧ availFwd s = 2 ∧ historyMatches (setHistorySearch s) s.idx = true ∧
     (historyForward s 2).idx = 3 ∧ (historyBackward (historyForward s 2) 2).idx = 0 := by decide
 
-/-! ## 17. Key level (emacs bindings of a single-line prompt) -/
+/-! ## 17. Key level (emacs bindings; single-line and multiline prompt) -/
 
-theorem keyOp_appends (k : Key) : (keyOp k).appends = true ↔ k = .enter := by
-  cases k <;> simp [keyOp, Op.appends]
+/-- the keys that run `validate_and_handle`: Enter in a single-line prompt, Esc Enter and
+    c-o (operate-and-get-next) always -/
+def keyAccepts (s : St) : Key → Bool
+  | .enter => !s.ml
+  | .escEnter => true
+  | .ctrlO => true
+  | _ => false
 
-theorem keyOp_ok (k : Key) : (keyOp k).ok := by
-  cases k <;> simp [keyOp, Op.ok]
+theorem yankOp_cases (env : Env) (s : St) (n : Option Int) (last : Bool) :
+    (∃ p k w, yankOp env s n last = .yankApply p k w) ∨ yankOp env s n last = .setEhs s.ehs := by
+  simp only [yankOp]
+  cases yankLookup env.words s n last with
+  | none => right; rfl
+  | some r => left; exact ⟨r.1, r.2.1, r.2.2, rfl⟩
 
-/-- one key press (with the event-loop turn that follows it) as two operations -/
-theorem keyStep_eq_run (v : Validator) (s : St) (k : Key) :
-    (keyStep v s k).1 = run v s [keyOp k, .asyncValidate] := by
-  simp [keyStep, run, step]
+theorem keyOp_appends (env : Env) (s : St) (k : Key) :
+    (keyOp env s k).appends = keyAccepts s k := by
+  cases k
+  case enter => cases h : s.ml <;> simp [keyOp, Op.appends, keyAccepts, h]
+  case beginHist => cases h : env.fixG <;> simp [keyOp, Op.appends, keyAccepts, h]
+  case endHist => cases h : env.fixG <;> simp [keyOp, Op.appends, keyAccepts, h]
+  case yankNth a =>
+    simp only [keyOp, keyAccepts]
+    rcases yankOp_cases env s a false with ⟨p, k, w, e⟩ | e <;> rw [e] <;> rfl
+  case yankLast a =>
+    simp only [keyOp, keyAccepts]
+    rcases yankOp_cases env s a true with ⟨p, k, w, e⟩ | e <;> rw [e] <;> rfl
+  all_goals simp [keyOp, Op.appends, keyAccepts]
 
-/-- **keys_preserve_history** — no key other than Enter writes to the history; Enter appends at
-    most the text on screen. -/
-theorem key_storage (v : Validator) (s : St) (k : Key) :
-    ∃ suf, (suf = [] ∨ suf = [s.text]) ∧ (keyStep v s k).1.storage = s.storage ++ suf ∧
-      (k ≠ .enter → suf = []) := by
-  obtain ⟨suf, h1, h2, h3⟩ := step_storage v s (keyOp k)
+theorem keyOp_ok (env : Env) (s : St) (k : Key) : (keyOp env s k).ok := by
+  cases k
+  case enter => cases h : s.ml <;> simp [keyOp, Op.ok, h]
+  case beginHist => cases h : env.fixG <;> simp [keyOp, Op.ok, h]
+  case endHist => cases h : env.fixG <;> simp [keyOp, Op.ok, h]
+  case yankNth a =>
+    simp only [keyOp]
+    rcases yankOp_cases env s a false with ⟨p, k, w, e⟩ | e <;> rw [e] <;> trivial
+  case yankLast a =>
+    simp only [keyOp]
+    rcases yankOp_cases env s a true with ⟨p, k, w, e⟩ | e <;> rw [e] <;> trivial
+  all_goals simp [keyOp, Op.ok]
+
+/-- what follows the handler of a key, as operations -/
+def afterOps : Out → List Op
+  | .accepted _ => [.asyncValidate, .appExit]
+  | _ => [.asyncValidate]
+
+theorem afterKey_eq_run (v : Validator) (s : St) (o : Out) : afterKey v s o = run v s (afterOps o) := by
+  cases o <;> simp [afterKey, afterOps, run, step]
+
+theorem afterOps_ok (o : Out) : ∀ op ∈ afterOps o, op.ok := by
+  intro op ho
+  cases o <;> simp [afterOps] at ho <;> (try rcases ho with rfl | rfl) <;> (try subst ho) <;> trivial
+
+/-- one key press (with the event-loop turn that follows it, and the end of the application when
+    the key accepted the input) as operations -/
+theorem keyStep_eq_run (v : Validator) (env : Env) (s : St) (k : Key) :
+    (keyStep v env s k).1 = run v s (keyOp env s k :: afterOps (step v s (keyOp env s k)).2) := by
+  simp only [keyStep, afterKey_eq_run]
+  rfl
+
+/-- **keys_preserve_history** — no key other than an accepting one (Enter in a single-line prompt,
+    Esc Enter) writes to the history — in particular Enter in a multiline prompt stores nothing —
+    and an accepting key appends at most the text on screen. -/
+theorem key_storage (v : Validator) (env : Env) (s : St) (k : Key) :
+    ∃ suf, (suf = [] ∨ suf = [s.text]) ∧ (keyStep v env s k).1.storage = s.storage ++ suf ∧
+      (keyAccepts s k = false → suf = []) := by
+  obtain ⟨suf, h1, h2, h3⟩ := step_storage v s (keyOp env s k)
   refine ⟨suf, h1, ?_, ?_⟩
   · simp only [keyStep]
-    rw [(asyncValidate_frame v _).2.2.1, h2]
+    rw [(afterKey_valOnly v _ _).fields.2.2.2.2.2.1, h2]
   · intro hk
     apply h3
-    cases hb : (keyOp k).appends
-    · rfl
-    · exact absurd ((keyOp_appends k).mp hb) hk
+    rw [keyOp_appends, hk]
+
+/-- **multiline_enter_is_an_edit** — in a multiline prompt Enter inserts a line break (plus the
+    copied margin) into the current working copy only and never accepts. -/
+theorem multiline_enter (v : Validator) (env : Env) (s : St) (hm : s.ml = true) :
+    (keyStep v env s .enter).2 = .none ∧ (keyStep v env s .enter).1.storage = s.storage ∧
+    (keyStep v env s .enter).1.idx = s.idx ∧
+    (∀ j, j ≠ s.idx → (keyStep v env s .enter).1.work[j]? = s.work[j]?) ∧
+    (WF s → (keyStep v env s .enter).1.text =
+      s.text.take s.cur ++ ('\n' :: leadingWs env.isSp s.text s.cur) ++ s.text.drop s.cur) := by
+  have hop : keyOp env s .enter = .insert (newlineData env.isSp s true) := by simp [keyOp, hm]
+  obtain ⟨e1, _, e3, _, e5⟩ := edit_only_at_idx v s (.insert (newlineData env.isSp s true)) rfl
+  have hv := afterKey_valOnly v (step v s (.insert (newlineData env.isSp s true))).1
+    (step v s (.insert (newlineData env.isSp s true))).2
+  refine ⟨by simp [keyStep, hop, step], ?_, ?_, ?_, ?_⟩
+  · simp only [keyStep, hop]; rw [hv.fields.2.2.2.2.2.1]; exact e1
+  · simp only [keyStep, hop]; rw [hv.fields.2.1]; exact e3
+  · intro j hj; simp only [keyStep, hop]; rw [hv.fields.1]; exact e5 j hj
+  · intro hwf
+    simp only [keyStep, hop]; rw [hv.text]
+    simp only [step, insertText]
+    rw [(setDocument_wf s _ _ hwf (by simp; have := hwf.2; omega)).2.1]
+    simp [newlineData]
 
 /-- the invariants hold after every key -/
-theorem inv_keyStep (v : Validator) (s : St) (k : Key) (h : Inv v s) : Inv v (keyStep v s k).1 := by
+theorem inv_keyStep (v : Validator) (env : Env) (s : St) (k : Key) (h : Inv v s) :
+    Inv v (keyStep v env s k).1 := by
   rw [keyStep_eq_run]
-  exact inv_run v _ s h (by intro op ho; simp at ho; rcases ho with rfl | rfl; exact keyOp_ok k; trivial)
+  refine inv_run v _ s h ?_
+  intro op ho
+  rcases List.mem_cons.mp ho with rfl | ho
+  · exact keyOp_ok env s k
+  · exact afterOps_ok _ op ho
 
 /-! ## 18. The vi bindings are the same operations plus a cursor fix -/
 
 /-- the buffer operation behind a vi key in the given mode (`none`: only the mode changes) -/
-def viKeyOp (nav : Bool) : ViKey → Option Op
+def viKeyOp (env : Env) (vs : ViSt) : ViKey → Option Op
   | .char c => some (.insert [c])
   | .backspace => some (.delBefore 1)
-  | .escape => if nav then none else some .left
+  | .escape => if vs.nav then none else some .left
   | .insertI => none
   | .appendA => some .right
   | .k a => some (.autoUp a true)
   | .j a => some (.autoDown a true)
   | .up a => some (.autoUp a false)
   | .down a => some (.autoDown a false)
-  | .gotoG n => some (.goTo (n - 1))
-  | .enter => some (.accept true)
+  | .gotoG n => some (if env.fixG then .goToFixed (n - 1) else .goTo (n - 1))
+  | .enter => if vs.st.ml && !vs.nav then some (.insert (newlineData env.isSp vs.st true)) else some (.accept true)
+  | .valDone => some .vFinish
 
-theorem viHandler_st (v : Validator) (vs : ViSt) (k : ViKey) :
-    (viHandler v vs k).1 = match viKeyOp vs.nav k with
+theorem viHandler_st (v : Validator) (env : Env) (vs : ViSt) (k : ViKey) :
+    (viHandler v env vs k).1 = match viKeyOp env vs k with
       | none => vs.st
       | some op => (step v vs.st op).1 := by
-  cases k <;> simp [viHandler, viKeyOp, step]
-  · split <;> rfl
+  cases k
+  case escape => simp only [viHandler, viKeyOp]; split <;> rfl
+  case gotoG n => simp only [viHandler, viKeyOp]; split <;> rfl
+  case enter => simp only [viHandler, viKeyOp]; split <;> rfl
+  all_goals simp [viHandler, viKeyOp, step]
 
 theorem viFix_frame (s : St) : Frame s (viFix s) ∧ (viFix s).idx = s.idx ∧ (viFix s).text = s.text ∧
     (viFix s).search = s.search ∧ (viFix s).vstate = s.vstate := by
@@ -1633,48 +1972,68 @@ theorem viFix_wf (s : St) (h : WF s) : WF (viFix s) := by
     exact ⟨this.1, this.2⟩
   · exact h
 
-theorem viKeyOp_ok (nav : Bool) (k : ViKey) : ∀ op, viKeyOp nav k = some op → op.ok := by
+theorem viKeyOp_ok (env : Env) (vs : ViSt) (k : ViKey) : ∀ op, viKeyOp env vs k = some op → op.ok := by
   intro op h
-  cases k <;> simp [viKeyOp] at h <;> (try (subst h; simp [Op.ok]))
-  · obtain ⟨_, h⟩ := h; subst h; simp [Op.ok]
+  cases k
+  case escape => simp only [viKeyOp] at h; split at h <;> cases h; trivial
+  case gotoG n => simp only [viKeyOp] at h; cases h; split <;> trivial
+  case enter => simp only [viKeyOp] at h; split at h <;> (cases h; trivial)
+  all_goals (simp only [viKeyOp] at h; cases h; first | trivial | skip)
 
-theorem viKeyOp_appends (nav : Bool) (k : ViKey) : ∀ op, viKeyOp nav k = some op →
-    op.appends = true → k = .enter := by
+/-- the vi keys that run `validate_and_handle`: Enter, except in insert mode of a multiline prompt -/
+def viKeyAccepts (vs : ViSt) : ViKey → Bool
+  | .enter => !(vs.st.ml && !vs.nav)
+  | _ => false
+
+theorem viKeyOp_appends (env : Env) (vs : ViSt) (k : ViKey) : ∀ op, viKeyOp env vs k = some op →
+    op.appends = true → viKeyAccepts vs k = true := by
   intro op h ha
-  cases k <;> simp [viKeyOp] at h <;> (try (subst h; simp [Op.appends] at ha)) <;> (try rfl)
-  · obtain ⟨_, h⟩ := h; subst h; simp [Op.appends] at ha
+  cases k
+  case escape => simp only [viKeyOp] at h; split at h <;> cases h; simp [Op.appends] at ha
+  case gotoG n => simp only [viKeyOp] at h; cases h; split at ha <;> simp [Op.appends] at ha
+  case enter =>
+    simp only [viKeyOp] at h
+    simp only [viKeyAccepts]
+    split at h
+    · cases h; simp [Op.appends] at ha
+    · next hc =>
+      cases hm : vs.st.ml <;> cases hn : vs.nav <;> simp [hm, hn] at hc ⊢
+  all_goals (simp only [viKeyOp] at h; cases h; first | (simp [Op.appends] at ha) | skip)
 
 /-- **vi_keys_invariants** — every vi key keeps well-formedness, the genuineness of the cached
     verdict and `get_strings() = stored`. -/
-theorem inv_viKeyStep (v : Validator) (vs : ViSt) (k : ViKey) (h : Inv v vs.st) :
-    Inv v (viKeyStep v vs k).1.st := by
-  have h1 : Inv v (viHandler v vs k).1 := by
+theorem inv_viKeyStep (v : Validator) (env : Env) (vs : ViSt) (k : ViKey) (h : Inv v vs.st) :
+    Inv v (viKeyStep v env vs k).1.st := by
+  have h1 : Inv v (viHandler v env vs k).1 := by
     rw [viHandler_st]
-    cases ho : viKeyOp vs.nav k with
+    cases ho : viKeyOp env vs k with
     | none => exact h
-    | some op => exact inv_step v vs.st op h (viKeyOp_ok vs.nav k op ho)
-  have h2 : Inv v (if (viHandler v vs k).2.1 then viFix (viHandler v vs k).1 else (viHandler v vs k).1) := by
+    | some op => exact inv_step v vs.st op h (viKeyOp_ok env vs k op ho)
+  have h2 : Inv v (if (viHandler v env vs k).2.1 then viFix (viHandler v env vs k).1
+      else (viHandler v env vs k).1) := by
     split
-    · obtain ⟨f1, f2, f3, f4, f5⟩ := viFix_frame (viHandler v vs k).1
+    · obtain ⟨f1, f2, f3, f4, f5⟩ := viFix_frame (viHandler v env vs k).1
       exact ⟨viFix_wf _ h1.1, vinv_same v _ _ f5 f3 h1.2.1,
         fun hl => by rw [f1.2.1, f1.2.2.1]; exact h1.2.2 (f1.2.2.2.1 ▸ hl)⟩
     · exact h1
-  have := inv_step v _ .asyncValidate h2 trivial
-  simpa [viKeyStep, step] using this
+  have := inv_run v (afterOps (viHandler v env vs k).2.2) _ h2 (afterOps_ok _)
+  rw [← afterKey_eq_run] at this
+  simpa [viKeyStep] using this
 
-/-- **vi_keys_preserve_history** — no vi key other than Enter writes to the history; Enter
-    appends at most the text on screen. -/
-theorem viKey_storage (v : Validator) (vs : ViSt) (k : ViKey) :
-    ∃ suf, (suf = [] ∨ suf = [vs.st.text]) ∧ (viKeyStep v vs k).1.st.storage = vs.st.storage ++ suf ∧
-      (k ≠ .enter → suf = []) := by
-  have hs : (viKeyStep v vs k).1.st.storage = (viHandler v vs k).1.storage := by
+/-- **vi_keys_preserve_history** — no vi key other than an accepting Enter writes to the history
+    (Enter in insert mode of a multiline prompt stores nothing); Enter appends at most the text
+    on screen. -/
+theorem viKey_storage (v : Validator) (env : Env) (vs : ViSt) (k : ViKey) :
+    ∃ suf, (suf = [] ∨ suf = [vs.st.text]) ∧ (viKeyStep v env vs k).1.st.storage = vs.st.storage ++ suf ∧
+      (viKeyAccepts vs k = false → suf = []) := by
+  have hs : (viKeyStep v env vs k).1.st.storage = (viHandler v env vs k).1.storage := by
     simp only [viKeyStep]
-    rw [(asyncValidate_frame v _).2.2.1]
+    rw [(afterKey_valOnly v _ _).fields.2.2.2.2.2.1]
     split
     · exact (viFix_frame _).1.2.2.1
     · rfl
   rw [hs, viHandler_st]
-  cases ho : viKeyOp vs.nav k with
+  cases ho : viKeyOp env vs k with
   | none => exact ⟨[], by simp, by simp, by simp⟩
   | some op =>
     obtain ⟨suf, a1, a2, a3⟩ := step_storage v vs.st op
@@ -1683,28 +2042,42 @@ theorem viKey_storage (v : Validator) (vs : ViSt) (k : ViKey) :
     apply a3
     cases hb : op.appends
     · rfl
-    · exact absurd (viKeyOp_appends vs.nav k op ho hb) hk
+    · have := viKeyOp_appends env vs k op ho hb
+      rw [hk] at this; cases this
 
 /-- a navigation key in vi mode changes no working copy -/
-theorem viKey_nav_work (v : Validator) (vs : ViSt) (k : ViKey)
-    (hk : ∀ op, viKeyOp vs.nav k = some op → op.isNav = true) :
-    (viKeyStep v vs k).1.st.work = vs.st.work := by
-  have hs : (viKeyStep v vs k).1.st.work = (viHandler v vs k).1.work := by
+theorem viKey_nav_work (v : Validator) (env : Env) (vs : ViSt) (k : ViKey)
+    (hk : ∀ op, viKeyOp env vs k = some op → op.isNav = true) :
+    (viKeyStep v env vs k).1.st.work = vs.st.work := by
+  have hs : (viKeyStep v env vs k).1.st.work = (viHandler v env vs k).1.work := by
     simp only [viKeyStep]
-    rw [(asyncValidate_frame v _).1]
+    rw [(afterKey_valOnly v _ _).fields.1]
     split
     · exact (viFix_frame _).1.1
     · rfl
   rw [hs, viHandler_st]
-  cases ho : viKeyOp vs.nav k with
+  cases ho : viKeyOp env vs k with
   | none => rfl
   | some op => exact (nav_frame v vs.st op (hk op ho)).1
 
+/-- the environment used in the examples: space is the only whitespace, words are the maximal
+    runs without a space or quoted strings -/
+def exSp : Env := { isSp := fun c => c == ' ', words := quotedWords (fun c => c == ' ') (fun c => c == ' ') }
+
 -- vi session: history [one, two], Esc, k, k lands on "one" with the cursor on its first character
 example : let vs0 : ViSt := viPromptStart { st := St.fresh ["one".toList, "two".toList] false false, nav := false } []
-    let vs := (viKeyStep exV (viKeyStep exV (viKeyStep exV vs0 .escape).1 (.k 1)).1 (.k 1)).1
+    let vs := (viKeyStep exV exSp (viKeyStep exV exSp (viKeyStep exV exSp vs0 .escape).1 (.k 1)).1 (.k 1)).1
     vs.nav = true ∧ vs.st.idx = 0 ∧ vs.st.text = "one".toList ∧ vs.st.cur = 0 ∧
     vs.st.storage = ["one".toList, "two".toList] := by decide
+
+-- multiline prompt: "  a" Enter copies the margin; Esc Enter accepts the two-line text
+example :
+    let s0 := promptStart (St.fresh ["one".toList] false false false true) []
+    let s1 := (keyStep exV exSp (keyStep exV exSp (keyStep exV exSp (keyStep exV exSp s0 (.char ' ')).1
+      (.char ' ')).1 (.char 'a')).1 .enter).1
+    s1.text = "  a\n  ".toList ∧ s1.storage = ["one".toList] ∧
+    (keyStep exV exSp s1 .escEnter).2 = .accepted "  a\n  ".toList ∧
+    (keyStep exV exSp s1 .escEnter).1.storage = ["one".toList, "  a\n  ".toList] := by decide
 
 /-! ## 19. The main theorems instantiated on the concrete session `exS` (their hypotheses are
     dischargeable, so none of them is vacuous) -/
@@ -1741,7 +2114,7 @@ example : let s := run exV exS [.histBack 1, .insert "x".toList, .home]
     (validateAndHandle exV s true).1.storage = s.storage ∧ (validateAndHandle exV s true).1.cur = 3 := by
   intro s
   have h := reject_no_change exV s true 6 (by decide) (by decide)
-  exact ⟨h.1, h.2.1, h.2.2.2.2.2.1, by rw [h.2.2.2.2.2.2.2.2]; decide⟩
+  exact ⟨h.1, h.2.1, h.2.2.2.2.2.1, by rw [h.2.2.2.2.2.2.2.2.1]; decide⟩
 
 example : (validateAndHandle exV exS true).2 = some exS.text ∧
     (validateAndHandle exV exS true).1.storage = exS.storage ++ ["a".toList] := by
